@@ -683,6 +683,25 @@ def check_forwarders(run, cx, cfg, only=None):
         r = ps[0]['ret'] if len(ps) == 1 else ('x',)
         ok = len(ps) == 1 and r[0] == 'agg' and r[1][1] == 'dasp_ring_buffer::DrainBounded' and unreborrow(r[2][0]) == ('param', 1) and not call_events(ps[0])
         run.check(ok, 'rb.forwarder', fn, cfg, 'drain must wrap the buffer itself', where=where(body))
+    for fn, want in (("<dasp_ring_buffer::DrainBounded<'a, S> as core::iter::traits::iterator::Iterator>::size_hint", 'pair'),
+                     ("<dasp_ring_buffer::DrainBounded<'a, S> as core::iter::traits::exact_size::ExactSizeIterator>::len", 'len')):
+        body = cx.body(fn)
+        if body is None:
+            run.fail('rb.drain-len', fn, cfg, 'function not found')
+            continue
+        ps = returning(cx.paths(fn, stop=[B + '::<S>::len']))
+        ok = False
+        if len(ps) == 1:
+            evs = call_events(ps[0], effectful_only=False)
+            lens = [('ret', k) for k, e in evs if rp(e) == B + '::<S>::len' and e['args'][0] == ('ref', (('P', ('field', ('deref', ('param', 1)), 0)), ()))]
+            r = ps[0]['ret']
+            if want == 'len':
+                ok = len(evs) == 1 and len(lens) == 1 and r == lens[0]
+            else:
+                ok = len(evs) == len(lens) and len(lens) >= 1 and r[0] == 'agg' and r[1][0] == 'tuple' and r[2][0] in lens and r[2][1][0] == 'agg' \
+                    and r[2][1][1][3] == 'Some' and r[2][1][2][0] in lens
+        run.check(ok, 'rb.drain-len', fn, cfg, 'the drain must report exactly bounded.len() remaining items: [%s]' % '; '.join(describe_path(p) for p in ps), where=where(body))
+    check_overrides(run, cx, cfg, 'rb.iter-inventory', lambda p: p.startswith('dasp_ring_buffer::'), evaluated={fn for _, fn, _, _ in run.instances}, minimum=3)
     # Extend: one push per item
     for adt in (B, F):
         fn = '<%s<S> as core::iter::traits::collect::Extend<<S as dasp_ring_buffer::Slice>::Element>>::extend' % adt
